@@ -6,7 +6,9 @@ import (
 	"fmt"
 	"math/rand"
 	"os"
+	"os/exec"
 	"path/filepath"
+	"strings"
 	"time"
 
 	"verif/engine/run"
@@ -23,6 +25,7 @@ func SelftestMain(args []string) int {
 	repo := fs.String("repo", "/repo", "repository")
 	verif := fs.String("verif", "/verif", "verif dir")
 	workers := fs.Int("workers", 14, "parallel workers")
+	kernel := fs.Bool("kernel", false, "also validate the kernel model against the running kernel (installs filters in child processes)")
 	if err := fs.Parse(args); err != nil {
 		return 2
 	}
@@ -176,7 +179,13 @@ func SelftestMain(args []string) int {
 			}
 		}
 	}
-	sum := map[string]interface{}{"tier": *tier, "seed": seed, "instances": len(jobs), "observations_compared": compared, "failures": bad, "wall_s": time.Since(t0).Seconds(),
+	kernelSummary := "not run (use --kernel)"
+	if *kernel {
+		ks, kbad := kernelValidation(c, rng, tabs["x86_64"], *tier)
+		kernelSummary = ks
+		bad += kbad
+	}
+	sum := map[string]interface{}{"kernel_validation": kernelSummary, "tier": *tier, "seed": seed, "instances": len(jobs), "observations_compared": compared, "failures": bad, "wall_s": time.Since(t0).Seconds(),
 		"what": "H_Sig: every raw instruction of compiled concrete policies, engine vs native; H_SelfKMI: kernel model result on concrete events, engine vs native, and natively vs x/net/bpf's VM (big-endian layout) and vs the reference decision"}
 	b, _ := json.MarshalIndent(sum, "", " ")
 	os.MkdirAll(filepath.Join(*verif, "selftest"), 0o755)
@@ -186,4 +195,102 @@ func SelftestMain(args []string) int {
 		return 2
 	}
 	return 0
+}
+
+// kernelValidation installs policies over harmless probe syscalls in child
+// processes of a natively built test binary (unmodified seccomp_linux.go) and
+// compares the running kernel's answers with the kernel model and the
+// reference decision.
+func kernelValidation(c *Ctx, rng *rand.Rand, tab map[string]int, tier string) (string, int) {
+	probesNames := []string{"getpid", "getppid", "getuid", "geteuid", "getgid", "getegid", "gettid"}
+	for _, n := range probesNames {
+		if _, ok := tab[n]; !ok {
+			return "probe syscall missing from the table: " + n, 1
+		}
+	}
+	shapes := EnumPolicyShapes(7, []string{"Equal", "GreaterThan"}, true)
+	nCases, nProbes := 60, 12
+	if tier == "thorough" {
+		nCases, nProbes = 400, 24
+	}
+	type probe struct {
+		Name string    `json:"name"`
+		X32  bool      `json:"x32"`
+		Args [6]uint64 `json:"args"`
+	}
+	type kcase struct {
+		ID     string                 `json:"id"`
+		Params map[string]interface{} `json:"params"`
+		Flag   uint32                 `json:"flag"`
+		Kill   bool                   `json:"kill"`
+		Probes []probe                `json:"probes"`
+	}
+	var cases []kcase
+	for i := 0; i < nCases; i++ {
+		sh := shapes[rng.Intn(len(shapes))]
+		perm := rng.Perm(len(probesNames))
+		names := []string{probesNames[perm[0]], probesNames[perm[1]], probesNames[perm[2]], probesNames[perm[3]]}
+		p := sh.Params("x86_64", 0, names, false)
+		// operations: mix all eight in
+		k := 0
+		for key := range p {
+			if len(key) > 3 && key[len(key)-3:] == ".op" {
+				p[key] = allOps[(i+k)%8]
+				k++
+			}
+		}
+		kc := kcase{ID: fmt.Sprintf("kernel/%d:%s", i, sh.String()), Params: p, Flag: uint32(i % 2), Kill: i%5 == 4}
+		for j := 0; j < nProbes; j++ {
+			pr := probe{Name: probesNames[rng.Intn(len(probesNames))], X32: rng.Intn(12) == 0}
+			for a := 0; a < 6; a++ {
+				kk := uint64(rng.Intn(6) + 1)
+				base := uint64(0xfedcba9876543210) ^ kk*0x9e3779b97f4a7c15
+				choices := []uint64{base, base + 1, base - 1, base ^ 0xffffffff, base ^ 0xffffffff00000000, 0, ^uint64(0), rng.Uint64(), uint64(rng.Uint32()), base & 0xffffffff00000000, base | 0xffffffff}
+				pr.Args[a] = choices[rng.Intn(len(choices))]
+			}
+			kc.Probes = append(kc.Probes, pr)
+		}
+		cases = append(cases, kc)
+	}
+	dir, err := os.MkdirTemp("", "verif-kernel-")
+	if err != nil {
+		return err.Error(), 1
+	}
+	defer os.RemoveAll(dir)
+	b, _ := json.Marshal(cases)
+	cf := filepath.Join(dir, "cases.json")
+	os.WriteFile(cf, b, 0o644)
+	run.NoBoundaryRewrite = true
+	defer func() { run.NoBoundaryRewrite = false }()
+	rp, err := run.NewReplayer(c.RepoDir, c.VerifDir)
+	if err != nil {
+		return err.Error(), 1
+	}
+	defer rp.Close()
+	bin, err := rp.BinFor(run.Module)
+	if err != nil {
+		return "cannot build: " + err.Error(), 1
+	}
+	cmd := exec.Command(bin, "-test.run", "^TestVerifKernel$", "-test.timeout", "600s")
+	cmd.Dir = dir
+	cmd.Env = append(os.Environ(), "VERIF_KERNEL_CASES="+cf)
+	out, _ := cmd.CombinedOutput()
+	bad := 0
+	summary := ""
+	for _, l := range strings.Split(string(out), "\n") {
+		if strings.HasPrefix(l, "VERIF-KERNEL-FAIL") || strings.HasPrefix(l, "VERIF-KERNEL-ERROR") {
+			bad++
+			if bad < 8 {
+				fmt.Println(l)
+			}
+		}
+		if strings.HasPrefix(l, "VERIF-KERNEL-SUMMARY") {
+			summary = strings.TrimPrefix(l, "VERIF-KERNEL-SUMMARY ")
+		}
+	}
+	if summary == "" {
+		return "did not run: " + lastN(string(out), 4), 1
+	}
+	fmt.Println("selftest kernel:", summary)
+	return summary + " (policies over getpid/getppid/get*id/gettid with conditions on all six registers, really installed in child processes with NoNewPrivs, with and without TSYNC; errno / success / SIGSYS compared with KMI and refDecide)", bad
 }
